@@ -89,6 +89,7 @@ def stepSt (s : DSt) : List String → DSt × String
   -- aligned_allocator<T,64>
   | ["ms"] => (s, toString (maxSize s.sz))
   | ["churn"] => (s, "ok")
+  | ["svcheck", _] => (s, "ok")
   | ["al", k, n] => alOp s k n
   | ["alh", k, n] => alOp s k n
   | ["de", k] => match k.toNat? with
